@@ -142,13 +142,42 @@ def _alarm(signum, frame):
     raise EvalTimeout()
 
 
+def too_expensive(expr_src):
+    """a power with a huge literal exponent (7**10**20) or a shift by a huge literal: never evaluated, stands for itself on both sides"""
+    try:
+        tree = ast.parse(expr_src, mode='eval')
+    except Exception:
+        return False
+
+    def const(n):
+        if isinstance(n, ast.UnaryOp):
+            return const(n.operand)
+        v = getattr(n, 'n', getattr(n, 'value', None))
+        return v if isinstance(v, (int, float)) and not isinstance(v, bool) else None
+    for n in ast.walk(tree):
+        if isinstance(n, ast.BinOp) and isinstance(n.op, (ast.Pow, ast.LShift)):
+            r = n.right
+            while isinstance(r, ast.UnaryOp):
+                r = r.operand
+            rv = const(r)
+            if rv is None and isinstance(r, ast.BinOp) and isinstance(r.op, ast.Pow):
+                rv = 10 ** 9        # a tower
+            if rv is not None and abs(rv) > 4096:
+                lv = const(n.left)
+                if lv is None or abs(lv) not in (0, 1):
+                    return True
+    return False
+
+
 def value_repr(expr_src):
     """evaluate a closed literal expression with this interpreter; canonical (type, value) description or exception type.
     A watchdog bounds the evaluation: an expression that the folder left alone because it is astronomically expensive (7**10**20) can still
     reach this function when a *different* rewrite changed the text around it; 'too-expensive' then stands for its value on both sides."""
     import signal
+    if too_expensive(expr_src):
+        return ('too-expensive',)
     old = signal.signal(signal.SIGALRM, _alarm)
-    signal.alarm(5)
+    signal.alarm(2)
     try:
         try:
             code = compile(expr_src, '<expr>', 'eval')
